@@ -668,8 +668,8 @@ func appendedConsts(fn *ssa.Function) (strs []string, bytes []byte) {
 
 func c03num(c *core.Ctx, r *core.Reporter, m *readerModel) {
 	const rule = "C03.num"
-	r.Rule(rule, "every radix prefix constant an integer printer emits (#b #o #x, #NNr, trailing dot) is consumed by the reader's sharp-dispatch tables; every exponent marker a float printer substitutes selects a reader regex whose arm builds a float of the same type", 8)
-	for _, tn := range []string{"Fixnum", "Bignum"} {
+	r.Rule(rule, "every radix prefix constant an integer or ratio printer emits (#b #o #x, #NNr, trailing dot) is consumed by the reader's sharp-dispatch tables, for a ratio together with the numerator/denominator text that follows it; every exponent marker a float printer substitutes selects a reader regex whose arm builds a float of the same type", 8)
+	for _, tn := range []string{"Fixnum", "Bignum", "Ratio"} {
 		fnObj := c.LookupFunc("", tn+".Readably")
 		if fnObj == nil {
 			r.Undecided(rule, tn+".Readably", "-", "anchor does not resolve")
@@ -692,7 +692,22 @@ func c03num(c *core.Ctx, r *core.Reporter, m *readerModel) {
 				continue
 			}
 			n++
-			for _, sample := range []string{s + "1 ", s + "-1 ", s + "1)"} {
+			samples := []string{s + "1 ", s + "-1 ", s + "1)"}
+			if tn == "Ratio" {
+				// the printer writes numerator, a separator byte and denominator after the prefix
+				sep := byte('/')
+				hasSep := false
+				for _, b := range bs {
+					if b == sep {
+						hasSep = true
+					}
+				}
+				if !hasSep {
+					r.Undecided(rule, "Ratio.Readably|separator", c.Pos(fn.Pos()), "the ratio printer does not append '/' (shape changed)")
+				}
+				samples = []string{s + "1/2 ", s + "-1/10 ", s + "1/2)"}
+			}
+			for _, sample := range samples {
 				okA, why := m.accepts(strings.TrimSuffix(sample, ")"))
 				if strings.HasSuffix(sample, ")") {
 					okA, why = m.accepts("(" + sample)
@@ -701,7 +716,11 @@ func c03num(c *core.Ctx, r *core.Reporter, m *readerModel) {
 			}
 		}
 		if hasR && hasSharp {
-			for _, sample := range []string{"#3r12 ", "#36rz ", "#36r-z "} {
+			rsamples := []string{"#3r12 ", "#36rz ", "#36r-z "}
+			if tn == "Ratio" {
+				rsamples = []string{"#3r1/2 ", "#36rz/10 "}
+			}
+			for _, sample := range rsamples {
 				okA, why := m.accepts(sample)
 				r.Decide(okA, rule, fmt.Sprintf("%s radix sample %q", tn, sample), c.Pos(fn.Pos()), orOK(why))
 			}
